@@ -44,6 +44,11 @@ type schedule struct {
 	// LateDangling (worlds with a dangling dependency): after everything else (incl. LiveReindex)
 	// the missing blob is delivered after all; the index must converge to the state of the complete set.
 	LateDangling bool `json:"late_dangling,omitempty"`
+	// Fault (kv-fault family, see fault.go): one call of the row store under the index fails without
+	// effect; an upload that fails is sent again, an acknowledged one is not.
+	Fault *faultSpec `json:"kv_fault,omitempty"`
+	// LateRestart: the index is re-opened over the same rows before the LateDangling delivery.
+	LateRestart bool `json:"late_restart,omitempty"`
 }
 
 type delaySrc struct {
@@ -72,6 +77,10 @@ type result struct {
 	lateNeeds, lateNeededBy, lateReady int
 	lateErr                            error
 	lateDone                           bool
+	// kv-fault family
+	fault        *faultHit      // the call that was failed (nil: the history never made it)
+	faultRetried int            // uploads that failed and were sent again
+	kvCalls      map[string]int // row-store calls by op-class@site
 }
 
 // tolerable reports whether a delivery error of b is within what the property allows: a blob
@@ -102,6 +111,15 @@ func execute(w *hw.World, sc schedule, kvKind string, dir string) (res result) {
 		return
 	}
 	defer closeKV()
+	idxKV := kv // what the index is opened over
+	var fkv *faultKV
+	if sc.Fault != nil {
+		fkv = newFaultKV(kv, *sc.Fault)
+		idxKV = fkv
+		defer func() {
+			res.fault, res.kvCalls = fkv.fired(), fkv.counts()
+		}()
+	}
 	ms := &memory.Storage{}
 	var src hw.SrcStore = ms
 	if sc.JitterSeed != 0 {
@@ -113,10 +131,36 @@ func execute(w *hw.World, sc schedule, kvKind string, dir string) (res result) {
 			return
 		}
 	}
-	x, err := hw.NewIdx(kv, src, false)
+	x, err := hw.NewIdx(idxKV, src, false)
 	if err != nil {
 		res.err = err
 		return
+	}
+	if fkv != nil {
+		fkv.arm(true)
+	}
+	// reopen re-opens the index over the same rows (the row store does not fail while it is opened)
+	reopen := func() (*hw.Idx, error) {
+		if fkv != nil {
+			fkv.arm(false)
+			defer fkv.arm(true)
+		}
+		return hw.NewIdx(idxKV, src, false)
+	}
+	// upload delivers b; with a failing row store an upload that failed is sent again
+	upload := func(cur *hw.Idx, b sto.Blob, pos int) error {
+		if fkv == nil {
+			return cur.Deliver(b)
+		}
+		fkv.setPos(pos)
+		before := fkv.fired()
+		err := cur.Deliver(b)
+		if err != nil && before == nil && fkv.fired() != nil {
+			// the row store failed during this upload and the upload failed: send it again
+			res.faultRetried++
+			err = cur.Deliver(b)
+		}
+		return err
 	}
 	dup := map[int]bool{}
 	for _, d := range sc.Dups {
@@ -128,7 +172,7 @@ func execute(w *hw.World, sc schedule, kvKind string, dir string) (res result) {
 		xmu.RLock()
 		cur := x
 		xmu.RUnlock()
-		if err := cur.Deliver(b); err != nil && !tolerable(w, b) {
+		if err := upload(cur, b, pos); err != nil && !tolerable(w, b) {
 			return fmt.Errorf("%s #%d %v (%s): %w", what, pos, b.Ref, w.Kind[b.Ref], err)
 		}
 		return nil
@@ -212,7 +256,7 @@ func execute(w *hw.World, sc schedule, kvKind string, dir string) (res result) {
 		for pi, ph := range phases {
 			if pi > 0 {
 				x.Quiesce()
-				x2, err := hw.NewIdx(kv, src, false)
+				x2, err := reopen()
 				if err != nil {
 					res.err = fmt.Errorf("restart: %w", err)
 					return
@@ -252,7 +296,7 @@ func execute(w *hw.World, sc schedule, kvKind string, dir string) (res result) {
 		for pos := range sc.Order {
 			if sc.RestartAt > 0 && pos == sc.RestartAt {
 				x.Quiesce()
-				x2, err := hw.NewIdx(kv, src, false)
+				x2, err := reopen()
 				if err != nil {
 					res.err = fmt.Errorf("restart: %w", err)
 					return
@@ -279,7 +323,15 @@ func execute(w *hw.World, sc schedule, kvKind string, dir string) (res result) {
 	}
 	if res.err == nil && sc.LateDangling && w.Dangling != nil {
 		res.lateDone = true
-		if err := x.Deliver(*w.Dangling); err != nil {
+		if sc.LateRestart {
+			x2, err := reopen()
+			if err != nil {
+				res.lateErr = fmt.Errorf("re-opening the index before the late delivery: %w", err)
+				return
+			}
+			x = x2
+		}
+		if err := upload(x, *w.Dangling, len(sc.Order)); err != nil {
 			res.lateErr = fmt.Errorf("late delivery of the missing %s %v: %w", w.DanglingKind, w.Dangling.Ref, err)
 			return
 		}
@@ -414,7 +466,7 @@ func permutations(n int, fn func([]int)) {
 
 func main() {
 	ev.Main("C05", "exploration",
-		"generated blob sets (keys, permanodes, set/add/del/path/member/share claims, delete chains incl. deletes of shares, files with nested bytes, directories with plain and split (mergeSets) static sets, opaque blobs, signed blobs with an INVALID signature (never indexable; they wait for their key like any signed blob); optionally one dangling dependency: key, chunk, bytes, static set, delete target incl. a permanode) delivered under arrival schedules: all permutations for sets of <=6 blobs, seeded permutations for larger sets, prefilled/non-prefilled source, adjacent and late duplicates, mid-history restarts, 2-8 concurrent deliverers (round-robin, and random lanes where ~10% of the blobs are uploaded by 2-3 lanes at once, optionally with a restart barrier) with jitter in the blob source, and same-blob races (2-6 concurrent uploads of one dependant while its dependency arrives, the not-found answers of the dependency lookup at the blob source / meta row steered by a seeded hold policy); the sorted row dump must equal the dependency-order run, a full Reindex on a fresh index, and (sampled) a Reindex() on the live index after the schedule; complete sets leave no pending needs, nothing indexable stays queued, and a dangling set converges to the complete set's rows when the missing blob is delivered after any schedule; distinct = (world, schedule); non-trivial = schedule differs from dependency order",
+		"generated blob sets (keys, permanodes, set/add/del/path/member/share claims, delete chains incl. deletes of shares, files with nested bytes, directories with plain and split (mergeSets) static sets, opaque blobs, signed blobs with an INVALID signature (never indexable; they wait for their key like any signed blob); optionally one dangling dependency: key, chunk, bytes, static set, delete target incl. a permanode) delivered under arrival schedules: all permutations for sets of <=6 blobs, seeded permutations for larger sets, prefilled/non-prefilled source, adjacent and late duplicates, mid-history restarts, 2-8 concurrent deliverers (round-robin, and random lanes where ~10% of the blobs are uploaded by 2-3 lanes at once, optionally with a restart barrier) with jitter in the blob source, and same-blob races (2-6 concurrent uploads of one dependant while its dependency arrives, the not-found answers of the dependency lookup at the blob source / meta row steered by a seeded hold policy); the sorted row dump must equal the dependency-order run, a full Reindex on a fresh index, and (sampled) a Reindex() on the live index after the schedule; one transient failure of a row-store call under the index (the n-th Get/Set/Delete/CommitBatch/Find of a row class, made for an upload or by the asynchronous re-indexer; every failing note of a pending edge of an out-of-order arrival is enumerated) with an uploader that re-sends only uploads that failed; complete sets leave no pending needs, nothing indexable stays queued, and a dangling set converges to the complete set's rows when the missing blob is delivered after any schedule; distinct = (world, schedule); non-trivial = schedule differs from dependency order",
 		run)
 }
 
@@ -433,6 +485,7 @@ func run(r *ev.Run) {
 	r.Assume("the reference state is the row dump of an in-dependency-order delivery on a fresh memory KV")
 	r.Assume("row dumps are taken after the out-of-order reindexing goroutines quiesce (hook VerifWaitOutOfOrder)")
 	r.Assume("a signed blob whose signature is invalid can never be indexed: its delivery may be refused, it has no rows (beyond a missing| edge while its key is absent) and it may stay in the ready-to-reindex queue; no other blob may stay there")
+	r.Assume("kv-fault family: exactly one call of the row store under the index fails, without effect; the uploader sends again an upload that failed and never one that was acknowledged; pending edges (missing| rows) that outlive their purpose after a failed deletion are counted, not judged: what is judged is that every acknowledged blob ends up indexed as in the reference, that waiting blobs stay recorded as waiting, and that the history can continue (late arrival of the missing blob, on the same index or after re-opening it)")
 	r.Assume("hold timers of the same-blob races only shape the interleaving; every verdict is taken from the rows and pending maps after quiescence")
 	root := ev.Scratch("c05")
 	defer os.RemoveAll(root)
@@ -454,6 +507,10 @@ func run(r *ev.Run) {
 				}
 				r.Eval(1)
 				rec := caseRec{CaseID: j.wid, World: j.w.Describe(), Blobs: blobList(j.w), Schedule: j.sc, KV: j.kv, Race: j.race}
+				if j.sc.Fault != nil {
+					judgeFault(r, j, res, rec)
+					continue
+				}
 				mode := "sequential"
 				switch {
 				case j.race != nil:
@@ -604,9 +661,22 @@ func run(r *ev.Run) {
 		return ref.dump, true
 	}
 
+	// kv-fault family: the schedule order with one failing row-store call per case (fault.go)
+	frng := r.Rand("kv-fault")
+	nFault := 0
+	submitFaults := func(w *hw.World, wid string, order []int, want []string) {
+		for _, spec := range faultSpecsFor(frng, w, order) {
+			spec := spec
+			nFault++
+			sc := schedule{Order: order, Fault: &spec, LateDangling: true, LateRestart: nFault%2 == 0}
+			submit(job{w: w, wid: wid, sc: sc, kv: "memory", want: want})
+		}
+	}
+
 	// 1. small sets, exhaustive permutations
 	srng := r.Rand("small-worlds")
 	nSmall := r.Pick(14, 40)
+	smallFaultEvery := r.Pick(12, 4) // every that many permutations of a small set also run with row-store faults
 	for i := 0; i < nSmall; i++ {
 		wo := hw.WorldOpts{Small: true, Label: fmt.Sprintf("s%d", i), Dangling: i%5 == 4}
 		if i%7 == 5 {
@@ -645,6 +715,9 @@ func run(r *ev.Run) {
 			if cnt%37 == 0 {
 				submit(job{w: w, wid: wid, sc: schedule{Order: p, LiveReindex: true}, kv: "memory", want: want})
 			}
+			if cnt%smallFaultEvery == 3 {
+				submitFaults(w, wid, p, want)
+			}
 		})
 		r.Count("exhaustive_permutation_sets", 1)
 		r.Count("exhaustive_permutations", cnt)
@@ -654,6 +727,7 @@ func run(r *ev.Run) {
 	lrng := r.Rand("large-worlds")
 	nLarge := r.Pick(36, 120)
 	nOrders := r.Pick(30, 120)
+	nFaultOrders := r.Pick(5, 20)
 	kvKinds := []string{"memory"}
 	if r.Thorough() {
 		kvKinds = []string{"memory", "leveldb", "kv", "sqlite"}
@@ -760,6 +834,10 @@ func run(r *ev.Run) {
 			submit(job{w: w, wid: wid, sc: sc, kv: kv, want: want})
 			r.Note("kv_kinds", kv)
 		}
+		// row-store faults on seeded orders of this set
+		for o := 0; o < nFaultOrders; o++ {
+			submitFaults(w, wid, frng.Perm(n), want)
+		}
 	}
 
 	// 3. same-blob races: K concurrent uploads of one dependant while its dependency arrives
@@ -809,6 +887,10 @@ func run(r *ev.Run) {
 	wg.Wait()
 	r.Require("schedule_modes", "sequential", "concurrent", "restart", "duplicates", "prefilled-source", "full-reindex", "dangling-then-delivered",
 		"late-duplicates", "lanes", "lanes-with-restart", "live-reindex", "same-blob-race", "bad-signature-before-key")
+	r.Require("schedule_modes", "kv-fault", "dangling-delivered-after-kv-fault", "dangling-delivered-after-kv-fault-and-restart")
+	r.Require("kv_fault_delivered", "Set-missing@upload", "CommitBatch-batch@upload", "Get-have@upload", "Get-meta@upload", "Delete-missing@upload", "Find-missing@upload",
+		"Set-missing@async", "CommitBatch-batch@async", "Get-have@async", "Get-meta@async", "Delete-missing@async", "Find-missing@async")
+	r.Require("kv_fault_pending_note_failed", "file<-chunk", "directory<-static-set", "claim<-key", "permanode<-key", "delete<-key")
 	r.Require("race_uploads", "2", "3", "4")
 	r.Require("race_dependant_kinds", "claim<-key", "permanode<-key", "file<-chunk", "delete<-permanode", "delete<-claim", "directory<-static-set")
 	if r.Only("") && r.Counter("race_trials") > 0 && r.Counter("race_trials_with_lookup_miss") == 0 {
